@@ -1,7 +1,7 @@
 (* C19 — ACE interaction keeps responses aligned with inputs. *)
 From Coq Require Import List NArith ZArith Bool.
 From PyD Require Import Base.Str Model.Ace Proofs.AceP.
-From PyD Require Import Base.Dec Model.SExpr Proofs.SExprP.
+From PyD Require Import Base.Dec Model.SExpr Proofs.SExprP Proofs.SExprRobust.
 Import ListNotations.
 
 (* whatever the line reader returns was read from the front of the
@@ -78,3 +78,23 @@ Theorem C19_parse_pair : forall a b rest, wf a -> wf b ->
   sx_parse (fmt (SPair a b) ++ rest) = POk (SPair a b, rest).
 Proof. exact parse_pair. Qed.
 Print Assumptions C19_parse_pair.
+
+(* a processor that exits in the middle of an answer leaves a prefix of an
+   answer line: decoding ANY prefix of ANY printed line returns pairs (possibly
+   the :error pair standing for the IndexError the decoder catches itself) and
+   never raises.  Before the repair of F30 (an asserted string key) this
+   statement was false of the decoder: a line cut before one of its last
+   parentheses ended in a two-element list with a non-string head. *)
+Theorem C19_truncated_answer_never_raises : forall pairs p,
+  Forall (fun kv => wf (snd kv)) pairs -> pref p (fmt_line pairs) ->
+  exists l, sexpr_data (S (length p)) p = POk l.
+Proof. exact sexpr_data_never_raises. Qed.
+Print Assumptions C19_truncated_answer_never_raises.
+
+(* the witness of F30: the results list of two results, cut before the last parenthesis *)
+Example C19_f30_witness :
+  let r i := SList [SPair (SStr [58;105]%N) (SInt i); SPair (SStr [58;109]%N) (SStr [120]%N); SPair (SStr [58;100]%N) (SStr [121]%N)] in
+  let line := fmt_line [([58;114]%N, SList [r 0%Z; r 1%Z])] in
+  let cut := firstn (length line - 1) line in
+  sexpr_data (S (length cut)) cut = POk [].
+Proof. vm_compute. reflexivity. Qed.
